@@ -325,9 +325,19 @@ func genC03(c *Ctx) {
 	defer func() { shortInner = false }()
 	c.rule = "squares from Build and Construct over mixed lists as in C01; direct scan: side, share count and size, namespace order, region structure, canonical padding everywhere outside the two compact sequences and the blobs; non-trivial = distinct case with at least one blob or two transactions"
 	r := c.rng
+	var list []sqCase
 	for i := 0; i < 260*c.scale; i++ {
-		s := randSquareCase(c, r, false, true)
-		c.add("build", argsOf(s)...)
+		list = append(list, randSquareCase(c, r, false, true))
+	}
+	nModel := len(list)
+	// Go-side only (too large for the model runner): blobs whose share count sits on the constants of the
+	// code - the worst-case share index 128*128 = 16384 - alone, behind ordinary transactions, and next to
+	// a small accepted blob transaction
+	list = append(list, oversizedBlobCases(c, r)...)
+	for ci, s := range list {
+		if ci < nModel {
+			c.add("build", argsOf(s)...)
+		}
 		sq, kept, err := keptCase(s)
 		wit := map[string]any{"case": s.shape()}
 		if !c.check(err == nil, "Build", "error", wit) {
@@ -612,6 +622,39 @@ func genC07(c *Ctx) {
 			c.mark(s.shape())
 		}
 	}
+}
+
+// oversizedBlobCases: transaction lists containing one blob of 16383 / 16384 / 16385 shares (the
+// worst-case share index constant of builder.go), which a 128x128 square can never hold next to
+// its own PFB: refused on the estimate, possibly before or after accepted transactions.
+func oversizedBlobCases(c *Ctx, r *Rng) []sqCase {
+	var out []sqCase
+	nss := blobNamespaces(r, 3)
+	for _, shares := range []int{16383, 16384, 16385} {
+		for variant := 0; variant < 3; variant++ {
+			b := randBlob(r, nss, 100)
+			b.ver = 0
+			b.signer = nil
+			b.data = make([]byte, 478+482*(shares-1)-r.Intn(3))
+			big := []genBlob{b}
+			var l []genTx
+			switch variant {
+			case 1: // exactly three shares of ordinary transactions first
+				l = append(l, genTx{raw: r.Bytes(1000)})
+			case 2: // a small accepted blob transaction first
+				sb := randBlob(r, nss, 300)
+				sbl := []genBlob{sb}
+				l = append(l, genTx{raw: blobTxWithInner(r.Bytes(100), sbl), blobs: sbl})
+			}
+			l = append(l, genTx{raw: blobTxWithInner(r.Bytes(120), big), blobs: big})
+			if variant == 1 {
+				l = append(l, genTx{raw: r.Bytes(50)})
+			}
+			out = append(out, sqCase{txs: l, max: 128, thr: 64})
+			c.count("oversized_blob")
+		}
+	}
+	return out
 }
 
 // ---- C12 ----
